@@ -106,6 +106,8 @@ def main(p):
             if ret is not None:
                 fail(cell, client, form, val, rlabel, 'void-not-none', repr(ret)[:100])
         else:
+            if hasattr(ret, 'pages') and hasattr(ret, '_response'):
+                ret = ret._response      # a pager: the reply it wraps (iteration is C07's subject)
             try:
                 g = Dresp.FromString(probelib.wire_of(ret))
             except Exception as ex:
